@@ -339,14 +339,25 @@ def run(ctx, rep):
             for b, d in an.switches.items():
                 if b in an.entry and mentions(d):
                     n_obs += 1
+                    ds = [d]
                     if d.op == "discr":
-                        # `helper(..)?` where the helper is `if c {Err} else {Ok}`: the branch is on c
+                        # `helper(..)?` where the helper is a decision tree (`if cached {Ok(A)} else if end <= len {Ok(B)} else {Err}`):
+                        # the branch is on the tree's conditions; only those that mention the stream length are observations of it
                         bx, _ = an.norm_var(d.args[0], ["Continue", "Break"])
                         if bx is not None and bx.op == "ite":
-                            d = bx.args[0]
-                    rep.require(err_only_guard(an, d), "stream-length-observed", "%s|guard" % fn["qual"], wh(an.blocks[b]["term"]["span"]),
-                                "stream length only decides between proceeding and an error",
-                                "%s branches on the stream length without one branch being error-only: %s" % (fn["qual"], pp(d)[:160]))
+                            conds = []
+
+                            def walk(x):
+                                if x.op == "ite":
+                                    conds.append(x.args[0])
+                                    walk(x.args[1])
+                                    walk(x.args[2])
+                            walk(bx)
+                            ds = [c_ for c_ in conds if mentions(c_)] or [bx.args[0]]
+                    for d in ds:
+                        rep.require(err_only_guard(an, d), "stream-length-observed", "%s|guard" % fn["qual"], wh(an.blocks[b]["term"]["span"]),
+                                    "stream length only decides between proceeding and an error",
+                                    "%s branches on the stream length without one branch being error-only: %s" % (fn["qual"], pp(d)[:160]))
             for cs in an.calls():
                 if cs.callee.get("resolved_crate") == F["crate"] and cs.callee_qual.startswith("elf_stream::CachingReader::"):
                     continue
